@@ -11,6 +11,7 @@ trace_distance_bound) against the matrices.
 """
 from __future__ import annotations
 
+import functools
 import itertools
 import json
 import math
@@ -65,6 +66,7 @@ def run(ctx: common.Run):
     check_phase_by_closed_forms(ctx, cirq, n)
     check_predicates(ctx, cirq, n * 8)
     check_equality_pool(ctx, cirq)
+    check_operation_predicates(ctx, cirq, n * 6)
 
 
 # ------------------------------------------------------------------------------ powers
@@ -476,6 +478,96 @@ def check_predicates(ctx, cirq, n):
             if worst > bound + 1e-6:
                 ctx.report_witness(f'predicate:trace_distance_bound:{fname.split("[")[0].split(" ")[0]}', 'trace_distance_bound of an operation is smaller than an achieved trace distance',
                                    {'lines': [{'op': repr(op)}], 'impl_out': [bound], 'spec_out': [worst], 'theorem_or_correspondence': 'trace_distance_bound_partial'})
+
+
+def embed(cirq, op, order):
+    """matrix of an operation on the qubits `order` (identity elsewhere)"""
+    return cirq.Circuit(op).unitary(qubit_order=order, qubits_that_should_be_present=order)
+
+
+def check_operation_predicates(ctx, cirq, n):
+    """equality predicates on operations look at the order of the qubits; has_stabilizer_effect derived from a matrix looks at
+    every generator on every qubit; commutes of Clifford gate objects"""
+    rng = ctx.substream('op_predicates')
+    qs = cirq.LineQubit.range(3)
+    multi = [cirq.CNOT, cirq.CZ, cirq.SWAP, cirq.ISWAP, cirq.CCX, cirq.CCZ, cirq.CSWAP, cirq.CNOT ** 0.5, cirq.PhasedFSimGate(0.3, 0.1, 0.2, 0.4, 0.5), cirq.PhasedISwapPowGate(phase_exponent=0.2, exponent=0.4),
+             cirq.FSimGate(0.4, 0.2), cirq.XX ** 0.3, cirq.ZZ ** 0.3, cirq.ControlledGate(cirq.Y ** 0.3), cirq.MatrixGate(gen.rand_unitary(rng, 4)), cirq.TwoQubitDiagonalGate([0.1, 0.4, 0.9, 1.7]),
+             cirq.ControlledGate(cirq.ISWAP), cirq.QubitPermutationGate([1, 2, 0])]
+    for _ in range(n):
+        ga = rng.choice(multi)
+        gb = ga if rng.random() < 0.7 else rng.choice(multi)
+        if cirq.num_qubits(ga) != cirq.num_qubits(gb):
+            continue
+        k = cirq.num_qubits(ga)
+        ta = rng.sample(qs, k)
+        tb = list(ta)
+        if rng.random() < 0.8:
+            rng.shuffle(tb)
+        a, b = ga.on(*ta), gb.on(*tb)
+        if rng.random() < 0.2:
+            b = b.with_tags('t')
+        ua, ub = embed(cirq, a, qs), embed(cirq, b, qs)
+        for name, val, ok in (
+            ('eq', a == b, np.allclose(ua, ub, atol=1e-7)),
+            ('approx_eq', cirq.approx_eq(a, b, atol=1e-9), np.allclose(ua, ub, atol=1e-5)),
+            ('equal_up_to_global_phase', cirq.equal_up_to_global_phase(a, b, atol=1e-9), phase_equal(ua, ub, atol=1e-5)),
+        ):
+            ctx.count('check', f'op-{name}:{bool(val)}')
+            ctx.case(['op-pred', name, repr(a), repr(b)], True)
+            if val and not ok:
+                ctx.report_witness(f'predicate:{name}:operations', f'{name} holds for two operations whose matrices differ (qubit order matters)',
+                                   {'lines': [{'a': repr(a), 'b': repr(b)}], 'impl_out': ['True'], 'spec_out': ['matrices differ'], 'theorem_or_correspondence': 'equality_sound'})
+    # has_stabilizer_effect of values that answer through their matrix: the non-Clifford part may sit on any qubit
+    T, Rx, H, S, I2 = cirq.unitary(cirq.T), cirq.unitary(cirq.rx(0.3)), cirq.unitary(cirq.H), cirq.unitary(cirq.S), np.eye(2)
+    kron = lambda *ms: functools.reduce(np.kron, ms)
+    a0, a1, a2 = qs
+    vals = [
+        cirq.MatrixGate(kron(I2, T)), cirq.MatrixGate(kron(T, I2)), cirq.MatrixGate(kron(Rx, I2)), cirq.MatrixGate(kron(I2, Rx)), cirq.MatrixGate(kron(H, S)), cirq.MatrixGate(kron(S, H)),
+        cirq.MatrixGate(kron(I2, I2, T)), cirq.MatrixGate(kron(I2, T, I2)), cirq.MatrixGate(kron(T, I2, I2)), cirq.MatrixGate(kron(H, S, H)), cirq.MatrixGate(kron(I2, Rx, I2)),
+        cirq.TwoQubitDiagonalGate([0, np.pi / 4, 0, np.pi / 4]), cirq.TwoQubitDiagonalGate([0, 0, np.pi / 4, np.pi / 4]), cirq.TwoQubitDiagonalGate([0, np.pi / 2, 0, np.pi / 2]),
+        cirq.ThreeQubitDiagonalGate([0, 0, np.pi / 4, np.pi / 4] * 2), cirq.ThreeQubitDiagonalGate([0, np.pi / 4] * 4), cirq.ThreeQubitDiagonalGate([0] * 4 + [np.pi / 4] * 4),
+        cirq.PhasedFSimGate(0, zeta=-np.pi / 8, gamma=-np.pi / 8), cirq.PhasedFSimGate(0, zeta=np.pi / 8, gamma=-np.pi / 8), cirq.PhasedFSimGate(np.pi / 2, 0, 0, 0, 0),
+        cirq.Circuit(cirq.H(a0), cirq.T(a1)), cirq.Circuit(cirq.T(a0), cirq.H(a1)), cirq.Circuit(cirq.H(a0), cirq.S(a1)), cirq.Circuit(cirq.H(a0), cirq.CNOT(a0, a1), cirq.T(a2)),
+        cirq.Circuit(cirq.H(a0), cirq.CNOT(a0, a1), cirq.S(a2)), cirq.FrozenCircuit(cirq.rx(0.3)(a1), cirq.H(a0)), cirq.CircuitOperation(cirq.FrozenCircuit(cirq.H(a0), cirq.T(a1))),
+        cirq.DiagonalGate([0, np.pi / 4, 0, np.pi / 4]), cirq.DiagonalGate([0, np.pi / 2, np.pi, 3 * np.pi / 2]),
+    ]
+    paulis = [np.eye(2), cirq.unitary(cirq.X), cirq.unitary(cirq.Y), cirq.unitary(cirq.Z)]
+    for v in vals:
+        claim = cirq.has_stabilizer_effect(v)
+        ctx.count('check', f'has_stabilizer_effect:pool:{bool(claim)}')
+        ctx.case(['stab-pool', repr(v)[:200]], True)
+        if not claim:
+            continue
+        u = cirq.unitary(v)
+        k = int(round(math.log2(u.shape[0])))
+        okc = True
+        for pos in range(k):
+            for pm in (paulis[1], paulis[3]):
+                okc = okc and is_pauli_string_like(u @ kron(*[pm if j == pos else I2 for j in range(k)]) @ u.conj().T, paulis)
+        if not okc:
+            ctx.report_witness('predicate:has_stabilizer_effect:matrix', 'has_stabilizer_effect is True but the matrix does not map Paulis to Paulis',
+                               {'lines': [{'value': repr(v)[:600]}], 'impl_out': ['True'], 'spec_out': ['not Clifford'], 'theorem_or_correspondence': 'stabilizer_effect_sound'})
+    # commutes on Clifford gate objects
+    C = cirq.SingleQubitCliffordGate
+    cl = [C.I, C.X, C.Y, C.Z, C.H, C.X_sqrt, C.Y_sqrt, C.Z_sqrt, C.X_nsqrt, C.Z_nsqrt]
+    for ga, gb in itertools.combinations(cl, 2):
+        c = cirq.commutes(ga, gb, default=None)
+        ctx.count('check', f'commutes:clifford:{c}')
+        ctx.case(['commutes-clifford', repr(ga)[:80], repr(gb)[:80]], True)
+        if c is True and not np.allclose(cirq.unitary(ga) @ cirq.unitary(gb), cirq.unitary(gb) @ cirq.unitary(ga), atol=1e-8):
+            ctx.report_witness('predicate:commutes:clifford-gates', 'cirq.commutes on two SingleQubitCliffordGate objects is True but the matrices do not commute (they commute up to a sign)',
+                               {'lines': [{'a': repr(ga), 'b': repr(gb)}], 'impl_out': ['True'], 'spec_out': ['matrices anticommute'], 'theorem_or_correspondence': 'commutes_sound'})
+
+
+def is_pauli_string_like(m, paulis):
+    """m is +-1 / +-i times a tensor product of Pauli matrices"""
+    k = int(round(math.log2(m.shape[0])))
+    for combo in itertools.product(range(4), repeat=k):
+        p = functools.reduce(np.kron, [paulis[c] for c in combo])
+        tr = np.trace(p.conj().T @ m) / m.shape[0]
+        if abs(abs(tr) - 1) < 1e-6:
+            return np.allclose(m, tr * p, atol=1e-6) and min(abs(tr - z) for z in (1, -1, 1j, -1j)) < 1e-6
+    return False
 
 
 def check_equality_pool(ctx, cirq):
